@@ -4,7 +4,13 @@
 // repository's generator built from the current tree, type-checked alone and
 // assembled, compiled, and driven through a real in-process server with every
 // boundary value (drv.Vals) and, for signals and properties, through the
-// subscriber histories of one session (drv.histories).
+// subscriber histories of one session (drv.histories). The object family
+// (objects.go, drv/objects.go) adds the actions with object-typed positions -
+// an interface of the same package as parameter (one or two objects, a scalar
+// before / after), as result, as signal payload, self and mutual reference -
+// driven with objects hosted by the caller (client-side objects, id >= 2^31),
+// by the called service and by another service, and judged by use: the
+// implementation calls value() on what it received and returns what it got.
 package main
 
 import (
@@ -282,10 +288,50 @@ func attribute(raw []rawFail, atoms []*atom, driven map[string]int) []string {
 		}
 		_ = nKind
 	}
+	// object family: every unit of one position class of one interface (>= 3
+	// of them) fails the same way: one class "<class>(*)"
+	groupOf := func(a *atom) string {
+		if !a.object || a.group == "" || a.known != "" {
+			return ""
+		}
+		if a.itfName != "Oa" {
+			return a.itfName + "." + a.group
+		}
+		return a.group
+	}
+	groupAll := map[string]bool{}
+	{
+		size := map[string]int{}
+		for _, a := range atoms {
+			if g := groupOf(a); g != "" {
+				size[g]++
+			}
+		}
+		bad := map[string]map[string]bool{}
+		for _, r := range raw {
+			if g := groupOf(r.a); g != "" {
+				k := r.key() + "|" + g
+				if bad[k] == nil {
+					bad[k] = map[string]bool{}
+				}
+				bad[k][r.a.id] = true
+			}
+		}
+		for k, set := range bad {
+			g := k[strings.LastIndex(k, "|")+1:]
+			if size[g] >= 3 && len(set) == size[g] {
+				groupAll[k] = true
+			}
+		}
+	}
 	out := make([]string, len(raw))
 	for i, r := range raw {
 		if allOfKind[r.key()] {
 			out[i] = "*"
+			continue
+		}
+		if g := groupOf(r.a); g != "" && groupAll[r.key()+"|"+g] {
+			out[i] = g + "(*)"
 			continue
 		}
 		if r.a.hygiene {
@@ -570,7 +616,8 @@ func main() {
 			"small-scope hypothesis over programs: every action kind x every type of the stated universe x the identifier hygiene set, one atom at a time, then all compiling atoms together; interplay of more than the listed colliding pairs is only covered through the assembled packages",
 			"'compiles' is decided by go/types on the generated file alone per atom (export data of the current tree) and by `go build` of the assembled packages",
 			"Go names of actions are obtained from the repository's own naming functions (MetaObject.ForEachMethodAndSignal, signature.CleanMethodName/CleanName); constructors and the service name are discovered from the generated code by shape",
-			"values: per-type boundary sets (DESIGN.md 1.1) plus the shrinking / equal-size lists of containers, argument tuples one position at a time plus the diagonal; object-typed parameters are not driven",
+			"values: per-type boundary sets (DESIGN.md 1.1) plus the shrinking / equal-size lists of containers, argument tuples one position at a time plus the diagonal; for object-typed positions the full product of the hosting sides over the object positions",
+			"object-typed positions: an object type is an interface of the same package that declares `fn value() -> int32`; objects are equal when value() through both proxies reaches the same implementation (every created object answers with a number of its own) - identifiers are not compared, the stub re-registers a client-side object under a new one; a client-side object is created through the ProxyService of the very service it is passed to (one service reference per service and process, as in examples/space); an object is never passed to itself (its mailbox would wait for itself)",
 			"sequential calls, emissions, subscriptions and cancellations from one goroutine on one session of a real in-process directory server over a unix socket under .work/c05 (interleavings of concurrent subscribers are C13's); waits of 20 s; a surplus copy of the last emission of a history is only seen if it arrives within the silence window",
 		}))
 	}
@@ -732,6 +779,8 @@ func main() {
 		driveBudget = 25 * time.Minute
 	}
 	deadline := time.Now().Add(driveBudget)
+	objectCases := map[string]int{}    // object family: position/hosting side -> value cases
+	objectUses := 0                    // uses (value()) of an object that crossed the wire, by implementation, caller or subscriber
 	nested := map[string]int{}         // position -> value cases carrying a list of containers with decreasing / equal inner sizes
 	nestedClasses := map[string]bool{} // position|class
 	histories, historyEvents := 0, 0   // subscriber histories executed, emissions made in them
@@ -791,6 +840,10 @@ func main() {
 							nested[pos] += n
 							nestedClasses[pos+"|"+a.class] = true
 						}
+						for pos, n := range r.Objects {
+							objectCases[pos] += n
+						}
+						objectUses += r.ObjectUses
 						histories += r.Histories
 						historyEvents += r.HistoryEvents
 						if r.Histories > 0 {
@@ -995,6 +1048,24 @@ func main() {
 		chk.Report(fp, f.what+fmt.Sprintf(" [%d atoms]", len(f.atoms)), f.replay)
 	}
 	// ---- evidence
+	objectUnits, objectDriven := 0, 0
+	for _, a := range atoms {
+		if a.object {
+			objectUnits++
+			for _, ac := range a.actions {
+				if drivenClasses[ac.kind+"|"+a.class] {
+					objectDriven++
+				}
+			}
+		}
+	}
+	unsupported := []string{}
+	for _, a := range atoms {
+		if a.object && a.known != "" {
+			unsupported = append(unsupported, a.class+": "+a.known)
+		}
+	}
+	sort.Strings(unsupported)
 	total := len(atoms)
 	exhaustive := notDriven == 0 && !deadlineHit
 	cov := map[string]interface{}{
@@ -1004,6 +1075,9 @@ func main() {
 			"action kinds (methods of 0..3 parameters, void or not, signals of 0/2/3 parameters, 2-parameter property), identifier hygiene (Go keywords, predeclared names, the generator's own locals and imported package names as parameter names, reserved and keyword method names, struct member names, interface names) and pairs of colliding names. " +
 			"Each atom is generated and type-checked alone; the compiling ones are assembled (<=110 per package), compiled with go build and every action is driven with every boundary value (methods: argument tuples one position at a time + diagonal, every return value; signals: every payload through Signal<X> to Subscribe<X>; properties: Set/Get/On<X>Change/Subscribe for every value). " +
 			"Boundary values of a list type are: empty, one item, two items, every boundary value of the item type once; and when the item type is a list, a map or a struct holding one (at any depth): three items whose inner containers have 3, 2, 1 entries and three items whose inner containers have 2, 2, 2 entries (fewer where a bool key allows only 2), scalars numbered consecutively so that all contents are pairwise distinct ([[1,2,3],[4,5],[6]]); these occur as return values, arguments, signal payloads and property values (nested_list_cases counts them by position). " +
+			"Object family (both tiers; thorough adds three objects, scalars of other kinds next to the object, the remaining type pairs): interfaces Early (declared before its users), Late (declared after them), Oa (the user), Node (refers to itself), Ping / Pong (refer to each other), each with `fn value() -> int32`; units = one action each: argument position {(o:T), (n:int32,o:T), (o:T,n:int32), (n:int32,o:T,s:str), void (o:T)} for T in {Early, Late}, two objects {(Early,Late), (Late,Early), (Early,Early), (Early,int32,Late), void (Late,Early)}; result position {make() -> T, make(v:int32) -> T, echo(o:T) -> T, conv(o:T) -> U, pick(o:T,q:T) -> T, a scalar before / after the echoed object}; signal payload sig(o:T); the same positions over Node; take / make / echo between Ping and Pong; `obj` (untyped reference, plain data) as parameter, result, payload and property; and the positions the generator does not support (listed findings, object_units_with_listed_findings): properties of interface type, several-parameter signals and a struct with an object member, objects inside Vec / Map / Tuple as parameter and result. " +
+			"Values of an object position = hosting side: client (created by the caller with the generated Create<X> on Proxy().ProxyService(session): id >= 2^31), service (hosted by the called service, the caller holds a proxy made from the reference), other-service (hosted by the service of the object's own interface); methods take the full product over their object positions, every scalar value once, and the same object in two positions of one type; results are made inside the implementation on its service, or one of the received arguments is handed back; payloads are service / other-service hosted. " +
+			"Oracle: the implementation is reached once, uses every object it received (value()) and returns the combination of what it got; every use succeeds and yields the number of the object passed in that position; the implementations of exactly those objects were invoked, once per use; the caller receives the combination; an object result used by the caller reaches the returned object's implementation exactly once; a subscriber's use of a received object yields the number of the emitted one (object_cases counts value cases by position/hosting side, object_uses the uses made). " +
 			"Subscriber histories on the driver's single session, for every signal and every property whose one-subscriber run was clean: {A alone: every payload}; {A and B together, 3 emissions, both receive each exactly once, cancel B, cancel A}; {subscribe A, subscribe B, cancel A, emit (B receives it once), cancel B, subscribe C, emit 2: C receives each exactly once}; {the same with B cancelled before A}; cancellations are awaited; oracle: the sequence received equals the sequence emitted while subscribed - equal payloads, same order, exactly one copy per emission per subscriber (a copy of any emission but the last one of a history is recognised by order, a surplus after the last one by 40 ms of silence, 300 ms for signals whose emissions are indistinguishable). " +
 			"evaluations = atoms given a verdict + value cases executed + emissions made in subscriber histories; distinct_nontrivial = distinct (action kind, type or hygiene class) pairs whose generated code compiled and was driven with at least one value case",
 		"samples":                               samples,
@@ -1022,6 +1096,11 @@ func main() {
 		"subscriber_histories":                  histories,
 		"subscriber_history_emissions":          historyEvents,
 		"actions_with_subscriber_histories":     historyActions,
+		"object_units":                          objectUnits,
+		"object_units_driven":                   objectDriven,
+		"object_cases":                          objectCases,
+		"object_uses":                           objectUses,
+		"object_units_with_listed_findings":     unsupported,
 		"types_in_universe":                     len(typeUniverse(map[string]int{"quick": 1, "thorough": 2}[tier])),
 		"actions_not_driven":                    notDriven,
 		"deadline_hit":                          deadlineHit,
